@@ -213,6 +213,7 @@ pub fn gen_c29(rng: &mut Rng, corpus: &Corpus, cfg: &C29Config) -> Value {
         prev_class[d] = Some(class.to_string());
         edit_no += 1;
         let inst = if rng.chance(1, 10) { 0 } else { edit_no };
+        let cur_before: Option<String> = cur_text[d].clone();
         let mut text = instantiate(&corpus.texts[ti], inst);
         // a quarter of the changes are small editor-like edits of the document's current text
         // (comment a line out, type a character, whitespace-only edits ...)
@@ -226,6 +227,12 @@ pub fn gen_c29(rng: &mut Rng, corpus: &Corpus, cfg: &C29Config) -> Value {
         if !opened[d] {
             opened[d] = true;
             ops.push(json!({"t": "open", "uri": uri(d), "version": version[d], "text": text, "src": corpus.texts[ti].name, "class": class}));
+        } else if rng.chance(1, 30) && cur_before.is_some() {
+            // a didChange without any content change: the text stays what it was (the op's `text`
+            // field is what the oracle takes as the document text after this edit)
+            let same = cur_before.clone().unwrap();
+            cur_text[d] = Some(same.clone());
+            ops.push(json!({"t": "change", "uri": uri(d), "version": version[d], "text": same, "changes": [], "src": "unchanged", "class": "unchanged"}));
         } else if rng.chance(1, 8) {
             // several content changes in one notification: with full-text sync the last one wins
             let other_class = *rng.pick(&classes);
